@@ -43,7 +43,7 @@ class C02(Check):
         return 200.0 if tier == "quick" else 1800.0
 
     def arms(self, tier):
-        nfull = 40 if tier == "quick" else 640
+        nfull = 24 if tier == "quick" else 640
         arms = [("full", nfull * BLOCKS), ("w1", 194)]
         if tier == "thorough":
             arms.append(("w3probe", 64))
